@@ -30,7 +30,7 @@ func init() {
 			ex = os.Getenv("VERIF_EXEC")
 		}
 		hn := os.Getenv("VERIF_HEIGHTS")
-		job := vx.Job{Exec: ex, Hist: hist, Args: map[string]string{"props": allProps, "results": "1", "mode": mode, "seed": os.Getenv("VERIF_SEEDLEN"), "heights": hn}}
+		job := vx.Job{Exec: ex, Hist: hist, Args: map[string]string{"props": allProps, "results": "1", "mode": mode, "seed": os.Getenv("VERIF_SEEDLEN"), "heights": hn, "prog": os.Getenv("VERIF_PROG")}}
 		if n, _ := strconv.Atoi(os.Getenv("VERIF_INPROC")); n > 0 {
 			f, _ := os.Create("/tmp/hmirror.prof")
 			pprof.StartCPUProfile(f)
@@ -147,7 +147,16 @@ func init() {
 	registry.Checks["ALLN"] = nodeCheck("ALLN", allProps, ruleNode, false)
 	registry.Checks["C02"] = nodeCheck("C02", "C02", ruleNode+"the signer wrapper records every signed content (at most one distinct content per kind/height/round across restarts), and the round-store wrapper checks at the instant the mirror persists a vote of this validator that the action store already holds it; non-trivial = execution in which the validator signed something or a header was committed, distinct by final canonical state", false)
 	registry.Checks["C08"] = nodeCheck("C08", "C08", ruleNode+"monitors: finalize only after a deliverable precommit majority for that block/round or a committed header; next height only after the finalization was stored; next round only with a nil quorum, full precommit presence, fired precommit delay or later-round minority; one Choose, no Consider/Choose after the prevote was chosen, one Decide and a Decide whenever one is due; positions strictly forward; calls and votes for the current round only, vote targets equal the strategy's answers; non-trivial as C02", false)
-	registry.Checks["C12"] = nodeCheck("C12", "C12", ruleNode+"at every quiescent point: at most one step timer outstanding, it belongs to the state machine's current round and matches its step, a proposal timer is armed whenever the machine still awaits a proposal; (part b, the production StandardRoundTimer under all interleavings, is exploreTimer) non-trivial as C02", false)
+	registry.Checks["C12"] = func(c *vx.Ctx) {
+		c12a(c)
+		checkTimerPrograms(c)
+	}
+}
+
+var c12a func(c *vx.Ctx)
+
+func init() {
+	c12a = nodeCheck("C12", "C12", ruleNode+"at every quiescent point: at most one step timer outstanding, it belongs to the state machine's current round and matches its step, a proposal timer is armed whenever the machine still awaits a proposal; (part b, the production StandardRoundTimer under all interleavings, is exploreTimer) non-trivial as C02", false)
 }
 
 var _ = registry
